@@ -175,6 +175,19 @@ func TestC06(t *testing.T) {
 	rec := ev.New(t, "C06")
 	rec.Rule("rapid-generated contention programmes on real LocalNodes in the ring simulator (initial ring 2..5 nodes): per phase one template with generated focus node, ids and call delays - k joiners into one gap through generated members; Leave(X) racing a join whose successor is X; Leave(X) racing joins at succ(X) and just after X; Leave of 2..3 adjacent nodes; join at X while pred(X) leaves; mixed. Oracle: (a) lock-interval exclusion from the proxy event log per node: two grants (RequestToJoin answered by the grantor = head of the returned successor list, RequestToLeave answered nil) must have a release (FinishJoin/FinishLeave(release) delivered) that can lie between them, judged conservatively on call/return order, and the number of grants never exceeds the Active->Transferring transitions in the node's recorded state history; (b) every refusal is retryable (documented non-refusals: duplicate id, request reached a node that already left); (c) every node's recorded state history is a path of the lifecycle graph; (d) after the quiet period every remaining node is Active and serves Put/Get. Non-trivial: >= 1 refusal or >= 2 lock windows on one node. Distinct = distinct plans.")
 	rec.Assume("the local leg of a lock (a leaver's own Leaving state, a joiner's Joining state) is judged through the state history, the remote leg through the event log")
+	// scenario tier: a join refused because the contacted node has just lost its predecessor
+	if p, n := refusedJoinLeavesNodeServing(); p != "" {
+		if len(p) > 13 && p[:13] == "precondition:" {
+			rec.Inconclusive("scenario-precondition")
+			t.Logf("refused-join scenario: %s", p)
+		} else {
+			rec.Fail(t, "refused-join-leaves-node-not-serving", map[string]any{"schedule": "ring {1<<44, 2<<44, 3<<44}; 2<<44 leaves; 3<<44 drops its predecessor pointer; 5<<43 asks 3<<44 to join before the new predecessor has notified it", "problem": p}, "%s", p)
+		}
+	} else {
+		rec.Case(true, "scenario:refused-join-without-predecessor", func() any {
+			return map[string]any{"scenario": "join refused by a node that has just lost its predecessor", "refusals": n}
+		}, "scenario:refused-join-without-predecessor")
+	}
 	// regression tier: the minimal schedule of a non-retryable refusal found by the thorough tier
 	if p := joinRoutedThroughJoiningNode(); p != "" {
 		if len(p) > 13 && p[:13] == "precondition:" {
